@@ -153,6 +153,8 @@ fn classify(h: &[Line], outs: &[Out]) -> Vec<(Inert, &'static str)> {
 
 /// remove each inert line in turn and compare everything else
 fn check_history(rep: &mut Report, h: &[Line], ps: &[Line], max_removals: usize, r: &mut Rng, note: &str) {
+    // all runs of one comparison on parsers obtained the same way
+    let _pin = mon::pin_ctor(r.below(2));
     let (outs, _tok) = run_hist(h);
     let cls = classify(h, &outs);
     let elig: Vec<usize> = (0..h.len()).filter(|i| cls[*i].0 != Inert::No).collect();
@@ -390,6 +392,7 @@ fn random_histories(ctx: &Ctx, rep: &mut Report, r: &mut Rng) {
 /// instance independence: several parsers fed interleaved streams in one thread
 fn interleaved_instances(ctx: &Ctx, rep: &mut Report, r: &mut Rng) {
     for _ in 0..ctx.budget(1_500, 60_000) {
+        let _pin = mon::pin_ctor(r.below(2));
         let k = if r.bool() { 2 } else { 4 };
         let streams: Vec<Vec<Line>> = (0..k).map(|s| stream(r, s as u64)).collect();
         let isolated: Vec<Vec<Out>> = streams.iter().map(|s| run_hist(s).0).collect();
@@ -446,6 +449,7 @@ fn mass_inert_runs(ctx: &Ctx, rep: &mut Report, r: &mut Rng) {
             if run > 2000 && !(ctx.thorough() || kind == 0) {
                 continue;
             }
+            let _pin = mon::pin_ctor(r.below(2));
             let id = Some(r.below(10) as u8);
             let n = 3u8;
             let open = Some((n, 1u8, id));
@@ -549,6 +553,7 @@ pub fn run(ctx: &Ctx, rep: &mut Report) {
 pub fn run_threads(ctx: &Ctx, rep: &mut Report) {
     let mut r = ctx.rng("c17t");
     let rounds = ctx.budget(3, 200);
+    let _pin = mon::pin_ctor(0);
     for round in 0..rounds {
         let k = if round % 2 == 0 { 4 } else { 8 };
         let streams: Vec<Vec<Line>> = (0..k).map(|s| stream(&mut r, s as u64)).collect();
